@@ -4,6 +4,7 @@ CONSTANTS
   CHLEN = 41
   MaxLines = @LINES@
   GrayRLLines = @GLINES@
+  MethodHVs = @MHVS@
   TailSet = {"none"}
   M2Set = {1}
 INIT GInit
